@@ -173,6 +173,45 @@ struct RowCtx {
     row_is_padding: bool,
     cur: Vec<Felt>,
     next: Vec<Felt>,
+    /// row i + 2 (the row after the altered one), if it exists
+    next2: Option<Vec<Felt>>,
+}
+
+/// The selector and node-index equations of docs/src/design/chiplets/hasher.md ("Selector columns constraints",
+/// "Node index constraints"), evaluated literally on the row pair (cur, next) whose current row has index `row`
+/// (k0 = 1 on rows 7 mod 8, k1 on rows 6 mod 8, k2 on rows 0 mod 8). `transition` = false evaluates only the
+/// equations that mention the current row alone (the next row belongs to another chiplet).
+/// Returns true if every equation holds.
+fn hasher_doc_selector_index_equations(cur: &[Felt], next: &[Felt], row: usize, transition: bool) -> bool {
+    let one = Felt::ONE;
+    let k = |m: usize| if row % 8 == m { one } else { Felt::ZERO };
+    let (k0, k1, k2) = (k(7), k(6), k(0));
+    let (s0, s1, s2) = (cur[CHIP + 1], cur[CHIP + 2], cur[CHIP + 3]);
+    let (s0n, s1n, s2n) = (next[CHIP + 1], next[CHIP + 2], next[CHIP + 3]);
+    let (i, i_n) = (cur[CHIP + 16], next[CHIP + 16]);
+    let z = Felt::ZERO;
+    // binary selectors, no invalid combination, index zero at the end of a computation
+    let f_out = k0 * (one - s0) * (one - s1);
+    let mut ok = s0 * s0 - s0 == z && s1 * s1 - s1 == z && s2 * s2 - s2 == z && k0 * (one - s0) * s1 == z && f_out * i == z;
+    if transition {
+        let f_out_n = k1 * (one - s0n) * (one - s1n);
+        let f_mp = k2 * s0 * (one - s1) * s2;
+        let f_mv = k2 * s0 * s1 * (one - s2);
+        let f_mu = k2 * s0 * s1 * s2;
+        let f_abp = k0 * s0 * (one - s1) * (one - s2);
+        let f_mpa = k0 * s0 * (one - s1) * s2;
+        let f_mva = k0 * s0 * s1 * (one - s2);
+        let f_mua = k0 * s0 * s1 * s2;
+        let f_an = f_mp + f_mv + f_mu + f_mpa + f_mva + f_mua;
+        let b = i - i_n - i_n;
+        ok = ok
+            && (s1n - s1) * (one - f_out_n) * (one - f_out) == z
+            && (s2n - s2) * (one - f_out_n) * (one - f_out) == z
+            && s0n * (f_abp + f_mpa + f_mva + f_mua) == z
+            && f_an * (b * b - b) == z
+            && (one - f_an - f_out) * (i_n - i) == z;
+    }
+    ok
 }
 
 /// documented stack effect of an operation (docs/src/design/stack/*.md, decoder/main.md):
@@ -275,7 +314,7 @@ fn helpers_determined(op: u8, k: usize, x: &RowCtx) -> bool {
 
 /// Some(reason) if the documentation leaves `cell` free for this row pair (a mutation of it need
 /// not be rejected by a transition constraint); None if the cell is determined / in scope.
-fn spec_free(c: Cell, x: &RowCtx) -> Option<&'static str> {
+fn spec_free(c: Cell, x: &RowCtx, new: Felt) -> Option<&'static str> {
     let op = x.opcode;
     match c {
         Cell::Clk => None,
@@ -343,13 +382,24 @@ fn spec_free(c: Cell, x: &RowCtx) -> Option<&'static str> {
             match (x.chiplet, x.chiplet_next) {
                 ("hasher", "hasher") => match col {
                     4..=15 => None, // state: the round function ties it to a neighbouring row
-                    2 | 3 if (1..=6).contains(&(r % 8)) => None, // s1, s2 are copied inside a cycle
-                    // s0 of the first row of a cycle is 0 after an absorption (hasher.md: s0' * (f_abp + f_mpa + f_mva +
-                    // f_mua) = 0; the same section leaves it unconstrained in all other cases, although the informal
-                    // list above it asks for 1 after an output row)
-                    1 if r % 8 == 0 && x.cur[CHIP + 1].as_int() == 1 => None,
-                    16 if r % 8 != 0 => None, // node index is constant inside a cycle
-                    _ => Some("hasher s0 is unconstrained inside a cycle; selectors / index at cycle boundaries follow flag-dependent rules that are not classified here"),
+                    // selectors s0, s1, s2 and the node index: the equations of hasher.md ("Selector columns
+                    // constraints", "Node index constraints") are evaluated literally on the two row pairs that
+                    // contain the altered cell; the change is a documented violation iff one of them fails
+                    1 | 2 | 3 | 16 => {
+                        let mut altered = x.next.clone();
+                        altered[CHIP + col] = new;
+                        let first = hasher_doc_selector_index_equations(&x.cur, &altered, x.row, true);
+                        let second = match &x.next2 {
+                            Some(n2) if x.row + 1 < x.n - 2 => hasher_doc_selector_index_equations(&altered, n2, r, chiplet_kind(n2) == "hasher" && chiplet_kind(&altered) == "hasher"),
+                            _ => true,
+                        };
+                        if first && second {
+                            Some("every selector / node-index equation of hasher.md holds on both row pairs that contain the altered cell (hasher s0 is unconstrained except after an absorption; the index of a new computation is arbitrary)")
+                        } else {
+                            None
+                        }
+                    }
+                    _ => Some("hasher chiplet selector column or unused column"),
                 },
                 ("bitwise", "bitwise") => match col {
                     2..=14 => None,
@@ -449,6 +499,13 @@ fn sweep(ctx: &Ctx, case: &ProgCase, challenges: &[Q], tally: &Mutex<Tally>, dum
             row_is_padding: i >= cycles,
             cur: cur.clone(),
             next: next.clone(),
+            next2: if i + 2 < n {
+                let mut v = vec![Felt::ZERO; width];
+                main.read_row_into(i + 2, &mut v);
+                Some(v)
+            } else {
+                None
+            },
         };
         // candidate cells
         let mut cells: Vec<Cell> = vec![];
@@ -542,7 +599,7 @@ fn sweep(ctx: &Ctx, case: &ProgCase, challenges: &[Q], tally: &Mutex<Tally>, dum
                 local.frames += 1;
                 if rejected {
                     e[1] += 1;
-                } else if let Some(_why) = spec_free(c, &x) {
+                } else if let Some(_why) = spec_free(c, &x, d) {
                     e[2] += 1;
                 } else {
                     e[3] += 1;
